@@ -250,6 +250,48 @@ func termFromModel(s *Sx, t types.Type) (*Term, error) {
 		return arr, nil
 	case *types.Slice:
 		return sliceFromModel(s, u.Elem(), SortOf(t))
+	case *types.Map:
+		ms := SortOf(t)
+		if !s.IsL || len(s.List) != 5 {
+			return nil, fmt.Errorf("bad map value %s", s)
+		}
+		c := ms.Ctors[0]
+		has := ConstArray(c.Fields[0].Sort, TFalse)
+		val := ConstArray(c.Fields[1].Sort, zeroOfSort(SortOf(u.Elem()), u.Elem()))
+		n := 0
+		// keys: the store chain of the membership array
+		cur := s.List[1]
+		seen := map[string]bool{}
+		for cur.IsL && len(cur.List) == 4 && cur.List[0].Atom == "store" {
+			ks := cur.List[2]
+			if !seen[ks.String()] {
+				seen[ks.String()] = true
+				if cur.List[3].Atom == "true" {
+					kt, err := termFromModel(ks, u.Key())
+					if err != nil {
+						return nil, err
+					}
+					vs, ok := sxArrayAtKey(s.List[2], ks)
+					var vt *Term
+					if ok {
+						vt, err = termFromModel(vs, u.Elem())
+						if err != nil {
+							return nil, err
+						}
+					} else {
+						vt = zeroOfSort(SortOf(u.Elem()), u.Elem())
+					}
+					has = Store(has, kt, TTrue)
+					val = Store(val, kt, vt)
+					n++
+				}
+			}
+			cur = cur.List[1]
+		}
+		if !(cur.IsL && len(cur.List) == 2 && cur.List[0].IsL && len(cur.List[0].List) >= 2 && cur.List[0].List[1].Atom == "const" && cur.List[1].Atom == "false") {
+			return nil, fmt.Errorf("map model with a non-finite key set")
+		}
+		return MkCtor(c, has, val, IntC(int64(n)), BoolC(s.List[4].Atom == "true" && n == 0)), nil
 	case *types.Interface:
 		is := SortOf(t)
 		if ucs := unionCases[is]; ucs != nil {
@@ -304,7 +346,7 @@ func sliceFromModel(s *Sx, elem types.Type, ss *Sort) (*Term, error) {
 	}
 	ln, ok1 := sxInt(s.List[1])
 	off, ok2 := sxInt(s.List[2])
-	if !ok1 || !ok2 || ln.Sign() < 0 || ln.Cmp(big.NewInt(1<<14)) > 0 {
+	if !ok1 || !ok2 || ln.Sign() < 0 || ln.Cmp(big.NewInt(256)) > 0 {
 		return nil, fmt.Errorf("slice length not replayable: %s", s.List[1])
 	}
 	arr := ConstArray(ArraySort(SInt, SortOf(elem)), zeroOfSort(SortOf(elem), elem))
@@ -408,4 +450,26 @@ func listDump(s *Sx, elem types.Type, ss *Sort) (*Term, error) {
 		arr = Store(arr, IntC(int64(i)), et)
 	}
 	return MkSlice(ss, IntC(int64(len(s.List)-1)), IntC(0), arr), nil
+}
+
+// sxArrayAtKey evaluates an array model value at a key given as an s-expression (const/store chains).
+func sxArrayAtKey(s *Sx, key *Sx) (*Sx, bool) {
+	ks := key.String()
+	for {
+		if !s.IsL || len(s.List) == 0 {
+			return nil, false
+		}
+		h := s.List[0]
+		if h.IsL && len(h.List) >= 2 && h.List[0].Atom == "as" && h.List[1].Atom == "const" && len(s.List) == 2 {
+			return s.List[1], true
+		}
+		if h.Atom == "store" && len(s.List) == 4 {
+			if s.List[2].String() == ks {
+				return s.List[3], true
+			}
+			s = s.List[1]
+			continue
+		}
+		return nil, false
+	}
 }
